@@ -107,7 +107,7 @@ class FakeQueue:
         threading.current_thread().proc.worker_put(item)
 
     def get(self, block=True, timeout=None):
-        return self.sched.parent_call("get", None)
+        return self.sched.parent_call("get", "blocking" if (block and timeout is None) else None)
 
 
 class _Stdout:
@@ -142,6 +142,9 @@ class Sched:
         self.end = None  # ("finished"|"aborted"|"crashed", detail)
         self.faults = 0
         self.written = []
+        self.strict = True
+        self.starting = False
+        self.last_kind = None
 
     # ---- parent side
     def parent_call(self, kind, obj):
@@ -279,8 +282,10 @@ class Sched:
 
     def a_WPut(self, w, sentinel=False):
         p = self._proc(w)
-        if p.state != "run" or p.pending is None or p.pending[0] != "put":
+        if p.state not in ("run", "failing") or p.pending is None or p.pending[0] != "put":
             raise Divergence("worker_not_putting", {"w": w, "pending": str(p.pending)[:80], "state": p.state})
+        if p.state == "failing" and self.strict:
+            raise Divergence("crashed_worker_keeps_sending", {"w": w, "item": "sentinel" if p.pending[1] is None else "record"})
         item = p.pending[1]
         if sentinel != (item is None):
             raise Divergence(
@@ -288,7 +293,7 @@ class Sched:
                 {"w": w, "expected": "sentinel" if sentinel else "record", "got": "sentinel" if item is None else "record"},
             )
         p.buf.append(item)
-        if sentinel:
+        if sentinel and p.state == "run":
             p.state = "done"
         p.pending = None
         p.release()
@@ -335,11 +340,10 @@ class Sched:
         p.pending = None
         p.release("crash")
         p.wait_settled()
-        if p.pending is not None and p.pending[0] == "put":
-            # the exception did not end the worker: it goes on talking to the parent (e.g. a sentinel sent from a finally clause)
-            raise Divergence("crashed_worker_keeps_sending", {"w": w, "item": "sentinel" if p.pending[1] is None else "record"})
-        if p.pending is None or p.pending[0] != "raised":
+        if p.pending is None or p.pending[0] not in ("raised", "put"):
             raise Divergence("crash_not_propagated", {"w": w, "pending": str(p.pending)[:60]})
+        # (pending == "put": the exception did not end the worker, it goes on talking to the parent,
+        #  e.g. a sentinel sent from a finally clause; the strict replay reports that at the next step)
         p.state = "failing"
         self.faults += 1
         return None
@@ -348,6 +352,8 @@ class Sched:
         p = self._proc(w)
         if not (p.state == "failing" and not p.buf):
             raise Divergence("failexit_not_possible", {"w": w})
+        if p.pending is not None and p.pending[0] == "put":
+            raise Divergence("crashed_worker_keeps_sending", {"w": w, "item": "sentinel" if p.pending[1] is None else "record"})
         p.state = "dead"
         p.code = 1
         return None
@@ -534,5 +540,161 @@ def run_random(argv, cap, C, seed, max_faults=0, fault_kinds=(), max_steps=5000,
     except Divergence as d:
         s.trace.append({"t": "STUCK", "why": d.clause, "detail": str(d.detail)[:200]})
         return s.trace, s.end, [l for l in s.written]
+    finally:
+        s.finish()
+
+
+# --------------------------------------------------------------------------- tolerant schedule replay
+
+_FIRST_CALL = {"PStart": "start", "PGetItem": "get", "PTimeout": "get", "PAlive": "is_alive", "PExitChk": "exitcode", "PJoin": "join", "PDrain": "write"}
+
+
+def run_schedule(argv, cap, C, labels, max_idle_calls=400):
+    """Use a TLC behaviour only as a *schedule*: its worker/fault actions are applied at the parent
+    call where the behaviour has them, every call of the real parent is answered truthfully from
+    the state of the fake world, whatever calls it makes and in whatever order. Nothing about the
+    parent's structure is assumed; the outcome (end status, written records, faults) is judged
+    afterwards. If the parent follows the model this reproduces the lock-step run exactly."""
+    s = Sched(argv, cap, C)
+    s.strict = False
+    s.begin()
+    idx = 0
+    idle = 0
+    hang = None
+    diverged = None
+
+    def applicable(t, w):
+        if w is None or w < 1 or w > len(s.procs):
+            return False
+        p = s.procs[w - 1]
+        if t in ("WPut", "WSentinel"):
+            return p.state in ("run", "failing") and p.pending is not None and p.pending[0] == "put" and (t == "WSentinel") == (p.pending[1] is None)
+        if t == "WFlush":
+            return s.alive(p) and bool(p.buf) and len(s.pipe) < s.cap
+        if t == "WExit":
+            return p.state == "done" and not p.buf and p.pending == ("returned",)
+        if t == "WKill":
+            return s.alive(p)
+        if t == "WCrash":
+            return p.state == "run" and p.pending is not None and p.pending[0] == "put"
+        if t == "WFailExit":
+            return p.state == "failing" and not p.buf and p.pending is not None and p.pending[0] == "raised"
+        return False
+
+    def env_from_schedule():
+        nonlocal idx
+        n = 0
+        while idx < len(labels) and labels[idx][0].startswith("W"):
+            t, w, _ = labels[idx]
+            idx += 1
+            if applicable(t, w):
+                s.do(t, w)
+                n += 1
+        return n
+
+    def env_default():
+        """one round of fair progress once the schedule is used up"""
+        n = 0
+        for p in list(s.procs):
+            w = p.w
+            for t in ("WSentinel", "WPut", "WFlush", "WExit", "WFailExit"):
+                if applicable(t, w):
+                    s.do(t, w)
+                    n += 1
+                    break
+        return n
+
+    def progress():
+        """used while the parent is blocked in a call: the world moves on without it"""
+        nonlocal idx
+        while True:
+            n = env_from_schedule()
+            if n:
+                return n
+            if idx < len(labels):      # a parent action of the model that this parent does not take here
+                idx += 1
+                continue
+            return env_default()
+
+    try:
+        while True:
+            k, obj = s.next_call()
+            if k == "end":
+                s.end = obj
+                break
+            before = (len(s.pipe), tuple(p.state for p in s.procs), len(s.written))
+            if k == "start":
+                # a process of the next group: the group is complete when the parent stops calling start
+                if obj in s.created:
+                    s.created.remove(obj)
+                    if not s.starting:
+                        s.procs = []
+                        s.pipe = []
+                        s.starting = True
+                    obj.w = len(s.procs) + 1
+                    s.procs.append(obj)
+                    obj.state = "run"
+                    th = threading.Thread(target=obj._run, daemon=True)
+                    th.proc = obj
+                    obj.thread = th
+                    th.start()
+                    obj.wait_settled()
+                s.trace.append({"t": "start", "w": obj.w})
+                s.last_kind = "start"
+                s.reply(None)
+                if idx < len(labels) and labels[idx][0] == "PStart":
+                    idx += 1
+                continue
+            s.starting = False
+            continuation = k == s.last_kind and k != "get"      # 2nd is_alive / exitcode / join / write of one scan
+            if not continuation:
+                env_from_schedule()                             # what the behaviour does before its next parent action
+                if idx < len(labels):                           # that parent action is consumed by this call
+                    if _FIRST_CALL.get(labels[idx][0]) != k:
+                        diverged = diverged or f"call {k} where the model has {labels[idx][0]}"
+                    idx += 1
+                else:
+                    env_default()
+            s.last_kind = k
+            if k == "get":
+                while obj == "blocking" and not s.pipe:
+                    if not progress():
+                        hang = "get() without timeout on a queue that can never receive an item"
+                        break
+                if hang:
+                    break
+                if s.pipe:
+                    item = s.pipe.pop(0)
+                    s.trace.append({"t": "get", "item": 0 if item is None else item.priority + 1})
+                    s.reply(item)
+                else:
+                    s.trace.append({"t": "timeout"})
+                    s.reply(("__raise__", stdq.Empty()))
+            elif k == "is_alive":
+                s.reply(s.alive(obj))
+            elif k == "exitcode":
+                s.reply(obj.code)
+            elif k == "join":
+                while s.alive(obj):
+                    if not progress():
+                        hang = f"join() on worker {obj.w} which can never exit (pipe full or unsent item)"
+                        break
+                if hang:
+                    break
+                s.reply(None)
+            elif k == "write":
+                s.written.append(obj)
+                s.reply(None)
+            else:
+                s.reply(None)
+            after = (len(s.pipe), tuple(p.state for p in s.procs), len(s.written))
+            idle = idle + 1 if (after == before and idx >= len(labels)) else 0
+            if idle > max_idle_calls:
+                hang = f"{idle} parent calls without any change after the schedule was used up"
+                break
+        end = s.end if s.end else ("hang", hang or "")
+        return {"end": end[0], "end_detail": end[1], "written": list(s.written), "faults": s.faults, "diverged": diverged or ""}
+    except Divergence as d:
+        return {"end": "stuck", "end_detail": d.clause + ":" + str(d.detail)[:120], "written": list(s.written), "faults": s.faults, "diverged": diverged or ""}
     finally:
         s.finish()
